@@ -99,7 +99,8 @@ theorem op_inplace_fails_iff (c : Codec V) (f : V → Except Err V) (d : Bits) :
 theorem rsub_map (c : Codec V) (hL : 0 < c.w) (hwf : c.WF) (frsub : V → Except Err V) (g : V → V) (d : Bits)
     (hf : ∀ v ∈ items c d, frsub v = .ok (g v)) (hfit : ∀ v ∈ items c d, fits c (g v) = true) :
     ∃ r, rsub c frsub d = .ok r ∧ items c r = (items c d).map g ∧ trailing c.w r = [] := by
-  sorry
+  unfold rsub
+  exact op_map_items c c hL hL hwf frsub g d hf hfit
 
 /-! ### bit-wise operators with a Bits value -/
 
@@ -176,7 +177,7 @@ theorem between_length_mismatch (c1 c2 cr : Codec V)
 /-- `==` / `!=` between Arrays is the element-wise comparison into `bool`, whatever the two dtypes. -/
 theorem eqNe_arrays (c cb c2 : Codec V) (f : V → V → Except Err V) (d d2 : Bits) :
     eqNeArrays c cb f d c2 d2 = betweenArrays c c2 cb f d d2 := by
-  sorry
+  rfl
 
 /-! ### type promotion: the code of `_promotetype` against the documented rules -/
 
